@@ -1,6 +1,8 @@
 """Training programs for jinns.solve (C07, C18, C19): builders from plain-JSON configs + the textbook reference loop."""
 from __future__ import annotations
 
+import contextlib
+
 import functools
 
 import numpy as np
@@ -400,7 +402,7 @@ def program_cfgs(kinds=("ode", "statio", "nonstatio", "system_ode"), aux=True, m
             return {"kind": kind, "dim": 0, "sys": sys, "opt": draw(st.sampled_from(OPT_NAMES)), "nt": nt,
                     "bt": draw(st.integers(1, min(nt, 3))), "data_key": draw(st.integers(0, 2**31 - 1)),
                     "tracked": draw(st.sampled_from(["none", "one", "all"])), "n_iter": draw(st.integers(1, max_iter)),
-                    "net": {"type": "field"}}
+                    "net": {"type": "field"}, "verbose": draw(st.booleans()), "print_every": draw(st.sampled_from([1, 2, 3, 1000]))}
         d = 0 if kind == "ode" else draw(st.sampled_from([1, 2]))
         din = d + (0 if kind == "statio" else 1)
         cfg = {"kind": kind, "dim": d, "opt": draw(st.sampled_from(OPT_NAMES)), "theta": draw(pos16(0.5, 1.5)),
@@ -435,9 +437,29 @@ def program_cfgs(kinds=("ode", "statio", "nonstatio", "system_ode"), aux=True, m
             cfg["obs_gen"] = {"n": draw(st.integers(9, 12)), "key": draw(st.integers(0, 1000))}
             # obs_batch_sharding selects solve()'s non-jitted python loop (device_put of the observation batch)
             cfg["sharding"] = draw(st.booleans())
+        # solve()'s printing options select different loop-exit / printing code; they must not change any result
+        cfg["verbose"] = draw(st.booleans())
+        cfg["print_every"] = draw(st.sampled_from([1, 2, 3, 1000]))
         return cfg
 
     return s()
+
+
+def verbosity(cfg):
+    """solve() keyword arguments for the printing options of a program configuration (default: quiet)."""
+    return {"verbose": bool(cfg.get("verbose", False)), "print_loss_every": int(cfg.get("print_every", 1000))}
+
+
+@contextlib.contextmanager
+def quiet():
+    """Swallows what a verbose solve() prints (python prints and jax.debug callbacks) so that worker logs stay readable."""
+    import io
+
+    import jax
+
+    with contextlib.redirect_stdout(io.StringIO()):
+        yield
+        jax.effects_barrier()
 
 
 def tracked_mismatch(tracked, stored, params_after_each_iter, n_total, rtol=1e-7):
